@@ -1,4 +1,5 @@
 CONSTANT MaxLen = 4
+CONSTANT NLines = 3
 INIT Init
 NEXT Next
 INVARIANT InvWriter
